@@ -54,7 +54,7 @@ def required_counters(tier):
         "kind.dataclass": 10,
         "kind.property": 10,
         "hooked_module.runs": 2,
-        "env.then_update_steps": 100, "window.annotations_built_while_disabled": 100, "moment.coroutine_called_off_awaited_on": 10, "kind.oldstyle-over-wraps": 50, "pytest_frontend.sessions": 9,
+        "env.then_update_steps": 100, "window.annotations_built_while_disabled": 100, "moment.coroutine_called_off_awaited_on": 10, "kind.oldstyle-over-wraps": 50, "pytest_frontend.sessions": 9, "none_hooked_module.compared_with_plain_while_disabled": 20,
     }
 
 
@@ -544,6 +544,26 @@ try:
             out["hooked_dataclass"] = "exc:" + type(e).__name__
     # the environment only gives the INITIAL value: config.update flips it both ways afterwards, for explicitly
     # decorated code and for a module that was imported through the hook in whichever state the process started
+    def plainlike_obs(mod):
+        import contextlib, io
+        o = {}
+        try:
+            mod.g()
+        except TypeError as e:
+            o["arity"] = str(e)
+        try:
+            mod.raiser(np.zeros(2, dtype="float32"))
+        except KeyError as e:
+            o["notes"] = repr(getattr(e, "__notes__", None))
+        with jaxtyping.jaxtyped("context"):
+            isinstance(np.zeros(9), jaxtyping.Shaped[np.ndarray, "outer"])
+            o["sees"] = mod.binds(np.zeros(2, dtype="float32"))
+        return o
+    if len(sys.argv) > 1:
+        with jaxtyping.install_import_hook("jtv_c19_hooked_none", None):
+            import jtv_c19_hooked_none
+        import jtv_c19_plain
+        out["none_hook_initial"] = [jaxtyping.config.jaxtyping_disable, plainlike_obs(jtv_c19_hooked_none), plainlike_obs(jtv_c19_plain)]
     steps = []
     cur = out["disable"]
     spell = {True: [True, "1", "TRUE", "true"], False: [False, "0", "false", "False"]}
@@ -565,6 +585,7 @@ try:
                 st["D"] = "constructed"
             except Exception as e:
                 st["D"] = "exc:" + type(e).__name__
+            st["none_hook"] = [plainlike_obs(jtv_c19_hooked_none), plainlike_obs(jtv_c19_plain)]
         steps.append(st)
     out["steps"] = steps
 except ValueError as e:
@@ -585,6 +606,16 @@ def g(x: Float[np.ndarray, "a"], y: Float[np.ndarray, "a"]):
 @dataclasses.dataclass
 class D:
     x: Float[np.ndarray, "a"]
+
+def raiser(x: Float[np.ndarray, "a"]):
+    raise KeyError("from the body")
+
+def binds(x: Float[np.ndarray, "a"]):
+    import contextlib, io, jaxtyping
+    b = io.StringIO()
+    with contextlib.redirect_stdout(b):
+        jaxtyping.print_bindings()
+    return b.getvalue().strip()
 '''
 
 
@@ -592,8 +623,9 @@ def arm_env(rec, shard):
     vals = [(v, True) for v in LEGAL_TRUE] + [(v, False) for v in LEGAL_FALSE] + [(v, None) for v in ILLEGAL] + [(None, False)]
     scratch = tempfile.mkdtemp(prefix="jtv_c19_")
     try:
-        with open(os.path.join(scratch, "jtv_c19_hooked.py"), "w") as f:
-            f.write(HOOKED)
+        for modname in ("jtv_c19_hooked", "jtv_c19_hooked_none", "jtv_c19_plain"):
+            with open(os.path.join(scratch, modname + ".py"), "w") as f:
+                f.write(HOOKED)
         for idx, (v, want) in enumerate(vals):
             if idx % NSHARDS != shard["i"]:
                 continue
@@ -630,6 +662,16 @@ def arm_env(rec, shard):
                 exp_dc = "constructed" if want else "exc:TypeCheckError"
                 if out.get("hooked_dataclass") != exp_dc:
                     rec.violation("env-behaviour", case, f"hooked dataclass under JAXTYPING_DISABLE={v!r}: {out.get('hooked_dataclass')}, expected {exp_dc}", mechanism="hooked-dataclass-" + ("disabled-still-checks" if want else "enabled-not-checking"))
+            nh = [(out["none_hook_initial"][0], out["none_hook_initial"][1], out["none_hook_initial"][2], "at start")] if out.get("none_hook_initial") else []
+            nh += [(st["want_disabled"], st["none_hook"][0], st["none_hook"][1], f"after update step {k}") for k, st in enumerate(out.get("steps", [])) if "none_hook" in st]
+            for dis, o_hook, o_plain, when in nh:
+                if not dis:
+                    continue
+                rec.count("none_hooked_module.compared_with_plain_while_disabled")
+                if o_hook != o_plain:
+                    diff = {k_: (o_hook.get(k_), o_plain.get(k_)) for k_ in set(o_hook) | set(o_plain) if o_hook.get(k_) != o_plain.get(k_)}
+                    rec.violation("env-behaviour", dict(case, when=when), f"module imported through install_import_hook(name, None), checking off ({when}): differs from the same module imported plainly in {diff}", mechanism="none-hooked-module-disabled-differs-from-plain")
+                    break
             for k, st in enumerate(out.get("steps", [])):
                 rec.count("env.then_update_steps")
                 rec.case(("env", v, hooked, "step", k), True)
